@@ -27,6 +27,18 @@ CHAN_MODEL = ("rapid state machine over bigbuff.Channel inside a synctest bubble
               "source accounting, Done, no zero values from a closed source, nothing taken after close, goroutine-leak check at the end. ")
 
 
+def waitcond(prof, quick, thorough):
+    return {"name": "waitcondstep", "test": "TestWaitCondStep", "steps": 30,
+            "checks": {"quick": quick, "thorough": thorough},
+            "shards": {"quick": 4, "thorough": 16},
+            "env": {"VKIT_PROFILE": prof}}
+
+
+WAITCOND_RULE = (" Plus a stepper over WaitCond itself (1-5 waiters with nil/background/cancellable/pre-cancelled/deadline contexts on one cond; rules "
+                 "set predicate with/without Broadcast, cancel, advance): enabledness at quiescence, nil only after the predicate held under the lock, ctx error "
+                 "without any Broadcast, predicate always under the lock, no watcher goroutine outlives its call.")
+
+
 def chanstep(prof, quick, thorough):
     return {"name": "chanstep", "test": "TestChanStep", "steps": 40,
             "checks": {"quick": quick, "thorough": thorough},
@@ -35,6 +47,21 @@ def chanstep(prof, quick, thorough):
 
 
 CONFIG = {
+    "C08": {
+        "rule": ("three rapid engines over bigbuff.ChanCaster: (step) model-based stepper in a synctest bubble: register(1-3), receive (select on C/quit), "
+                 "deregister (idle, or via quit; during a Send it absorbs one copy), send (launched), add0, positive Add launched during a Send "
+                 "(must wait, then count only for a later Send); oracle = per-slot delivery, Send return == receipts, return+absorbed == registered at start, "
+                 "enabledness at quiescence, Add return values; (free) free-running programs in a bubble: 1-5 receivers x 1-4 rounds that give up after a drawn "
+                 "number of yields, 1-3 racing senders, per-message count + conservation oracle, bubble deadlock = hang; (misuse) sequential Add/Send with deltas "
+                 "from the whole int range: out-of-range / unbalanced Adds must panic and every later call must panic. "
+                 "non-trivial = step: a Send with >=2 registered and an absorbed deregistration or a deferred registration; free: >=2 senders and >=1 deregistration; "
+                 "misuse: a range panic followed by >=2 further calls; distinct = hash of the case."),
+        "jobs": [
+            {"name": "caster_step", "test": "TestC08CasterStep", "steps": 40, "checks": {"quick": 16000, "thorough": 400000}, "shards": {"quick": 8, "thorough": 16}},
+            {"name": "caster_free", "test": "TestC08CasterFree", "checks": {"quick": 16000, "thorough": 800000}, "shards": {"quick": 4, "thorough": 16}, "stall_sig": "C08/stall"},
+            {"name": "caster_misuse", "test": "TestC08CasterMisuse", "checks": {"quick": 30000, "thorough": 1000000}, "shards": {"quick": 2, "thorough": 8}},
+        ],
+    },
     "C13": {
         "rule": CHAN_MODEL + "non-trivial = a sequence containing rollback, partial re-read (>=1, < pending), second rollback, then commit; or a Close/cancel with a Get pending; distinct = hash of the executed op trace.",
         "jobs": [chanstep("C13", 24000, 800000)],
@@ -60,12 +87,12 @@ CONFIG = {
         "jobs": [bufstep("C04", 24000, 800000)],
     },
     "C05": {
-        "rule": BUF_MODEL + "non-trivial = a waking event (Put / cancel / Close) issued while a Get was observed blocked at quiescence; distinct = hash of the executed op trace.",
-        "jobs": [bufstep("C05", 24000, 800000)],
+        "rule": BUF_MODEL + "non-trivial = a waking event (Put / cancel / Close) issued while a Get was observed blocked at quiescence; distinct = hash of the executed op trace." + WAITCOND_RULE,
+        "jobs": [bufstep("C05", 24000, 800000), waitcond("C05", 12000, 400000)],
     },
     "C12": {
-        "rule": BUF_MODEL + "non-trivial = a Close launched while another op on the handle was in flight or uncommitted reads existed AND >=2 handles closed in non-creation order; distinct = hash of the executed op trace.",
-        "jobs": [bufstep("C12", 24000, 800000), chanstep("C12", 12000, 400000)],
+        "rule": BUF_MODEL + "non-trivial = a Close launched while another op on the handle was in flight or uncommitted reads existed AND >=2 handles closed in non-creation order; distinct = hash of the executed op trace. " + CHAN_MODEL + WAITCOND_RULE,
+        "jobs": [bufstep("C12", 24000, 800000), chanstep("C12", 12000, 400000), waitcond("C12", 8000, 300000)],
     },
     "C19": {
         "rule": ("rapid-generated function signatures (reflect.FuncOf over a 19-type grammar, 0-4 params, optional "
